@@ -4,7 +4,9 @@
 (*   ops   sequences of up to MaxOps operators from OpKinds (one per arity  *)
 (*         class, an unknown name, ' and ", names that are prefixes of      *)
 (*         others, operands that need separators or escapes, an inline      *)
-(*         image): writer then reference scanner is the identity, in one    *)
+(*         image, comments written as raw content and ending in every kind  *)
+(*         of byte): writer then reference scanner is the identity (the     *)
+(*         comments denote nothing, every other operator itself), in one    *)
 (*         piece and cut at operator boundaries                             *)
 (*   img   inline image data up to MaxData bytes over DataAlphabet: the     *)
 (*         writer round-trips all of it; without WriterAddsLength exactly   *)
@@ -35,6 +37,15 @@ OpOf(k) ==
     [] k = "d"    -> MkOp(<<100>>, <<Arr(<<>>), N(0)>>)
     [] k = "sc"   -> MkOp(<<115, 99>>, <<PReal(<<48, 46, 53>>), N(0), N(1), Null, Bool(TRUE)>>)
     [] k = "unk"  -> MkOp(<<120, 121, 122>>, <<Name(<<65>>), N(1)>>)
+    \* comments: ending in a regular character, SP, FF, NUL, CR, LF; empty; with %, parentheses, EI
+    [] k = "cReg"   -> MkOp(bRaw, <<Str(<<37, 110>>)>>)
+    [] k = "cSP"    -> MkOp(bRaw, <<Str(<<37, 32, 110, 32>>)>>)
+    [] k = "cFF"    -> MkOp(bRaw, <<Str(<<37, 110, 12>>)>>)
+    [] k = "cNUL"   -> MkOp(bRaw, <<Str(<<37, 110, 9, 0>>)>>)
+    [] k = "cCR"    -> MkOp(bRaw, <<Str(<<37, 110, 13>>)>>)
+    [] k = "cLF"    -> MkOp(bRaw, <<Str(<<37, 110, 10>>)>>)
+    [] k = "cEmpty" -> MkOp(bRaw, <<Str(<<37>>)>>)
+    [] k = "cMix"   -> MkOp(bRaw, <<Str(<<37, 37, 40, 69, 73, 41, 32>>)>>)
     [] k = "img"  -> ImageOp(<<0, 255, 10, 69>>)
     [] k = "imgE" -> ImageOp(<<>>)
 
